@@ -5,11 +5,18 @@ VARIABLE l
 ln(k) == Trace[k]
 Report(k, name, holds) == holds \/ PrintT(<<"VIOL", k, name>>)
 Stage(x, same) == IF x.claim = "right" \/ same THEN "seal" ELSE "difficulty"
-Judge(k) == ln(k).ev = "Pow" =>
+IsReal(k) == "fam" \in DOMAIN ln(k).args
+JudgeReal(k) ==
+  (* a genuinely sealed, rule-abiding child of the stored header is accepted and becomes the head: proof-of-work chains are not wedged *)
+  /\ Report(k, "C10.SealedHeaderAccepted", ln(k).args.mut \in {"none", "second"} => (ln(k).res = "ok" /\ ln(k).headok))
+  (* ... and is refused, with nothing changed, when its seal or its difficulty is touched *)
+  /\ Report(k, "C10.TouchedSealRefused", ln(k).args.mut \notin {"none", "second"} => (ln(k).res # "ok" /\ ln(k).dg.pre = ln(k).dg.post))
+JudgeSynth(k) == ln(k).ev = "Pow" =>
   (* without a valid seal nothing is accepted, and nothing changes *)
   /\ Report(k, "C10.PowNeverAcceptedUnsealed", ln(k).res # "ok" /\ ln(k).dg.pre = ln(k).dg.post)
   (* the difficulty rule decides exactly as the formula says (reference written down in the replay, not taken from the code) *)
   /\ Report(k, "C10.DifficultyRule", ln(k).stage = Stage(ln(k).args, ln(k).same))
+Judge(k) == IF ln(k).ev = "Pow" /\ IsReal(k) THEN JudgeReal(k) ELSE JudgeSynth(k)
 TInit == l = 0
 TNext == l < Len(Trace) /\ l' = l + 1 /\ Judge(l + 1)
 TSpec == TInit /\ [][TNext]_l
